@@ -118,6 +118,11 @@ def units(rng, tier):
             if idsx is not None:
                 u["family"] += "/names-from-values"
             us.append(u)
+    # complete KK on layered values (see gen.layered; repair D11): every presentation must give the same sums
+    for _ in range(20 if tier == "quick" else 300):
+        kk, v = gen.layered(rng)
+        ids = gen.ids_for(rng, len(v))
+        us += group(rng, lambda fmt, ids, kk=kk, v=v: part_unit("ckk", kk, v, rng, fmt=fmt, cmp="sums", family="ckk-layered", ids=ids), ids, v)
     for _ in range(50 if tier == "quick" else 700):
         C, vals, fam = gen.covering_instance(rng, nmax=10)
         for a in COVER:
